@@ -73,7 +73,7 @@ func genHist(t *rapid.T) HCase {
 	}
 	ns := rapid.IntRange(2, 6).Draw(t, "nsteps")
 	for i := 0; i < ns; i++ {
-		st := HStep{Op: rapid.SampledFrom([]string{"newfrom", "merge", "merge", "unpackcfg"}).Draw(t, "op")}
+		st := HStep{Op: rapid.SampledFrom([]string{"newfrom", "merge", "merge", "unpackcfg", "unpack-reused", "unpack-reused"}).Draw(t, "op")}
 		if i > 0 && rapid.IntRange(0, 2).Draw(t, "again") == 0 {
 			// exactly an earlier call once more
 			prev := c.Steps[rapid.IntRange(0, i-1).Draw(t, "prev")]
@@ -101,6 +101,41 @@ type world struct {
 	embedded []*ucfg.Config
 	embTrees []*gen.Tree
 	pool     []ucfg.Option
+	// a configuration and targets that live as long as the world: unpacking it again into the same targets (which
+	// capture sections of it in *Config fields, under append/prepend policies too) must not change it
+	srcCfg  *ucfg.Config
+	srcErr  error
+	targets []interface{}
+}
+
+func (w *world) source() (*ucfg.Config, error) {
+	if w.srcCfg == nil && w.srcErr == nil {
+		w.srcCfg, w.srcErr = ucfg.NewFrom(w.inA, ucfg.PathSep("."))
+		w.targets = []interface{}{
+			&struct {
+				A *ucfg.Config `config:"a"`
+			}{},
+			&struct {
+				A *ucfg.Config `config:"a,append"`
+			}{},
+			&struct {
+				A *ucfg.Config `config:"a,prepend"`
+				B *ucfg.Config `config:"b,append"`
+			}{},
+			&struct {
+				C []*ucfg.Config `config:"c,append"`
+			}{},
+			&struct {
+				M map[string]*ucfg.Config `config:",inline,append"`
+			}{},
+			&struct {
+				B map[string]interface{} `config:"b,append"`
+				A []interface{}          `config:"a,prepend"`
+			}{},
+			ucfg.New(),
+		}
+	}
+	return w.srcCfg, w.srcErr
 }
 
 func buildInput(tr *gen.Tree, embed []string, iface bool, w *world) (interface{}, error) {
@@ -188,6 +223,18 @@ func (w *world) run(st HStep) string {
 			opts = append(opts, w.pool[i])
 		}
 	}
+	if st.Op == "unpack-reused" {
+		return sigOf(func() (interface{}, error) {
+			src, err := w.source()
+			if err != nil {
+				return "source refused", nil
+			}
+			for _, t := range w.targets {
+				uc.Safe("Unpack", func() error { return src.Unpack(t, opts...) })
+			}
+			return uc.Dump(src, ucfg.PathSep("."))
+		})
+	}
 	return sigOf(func() (interface{}, error) {
 		cfg, err := ucfg.NewFrom(w.inA, opts...)
 		if err != nil {
@@ -273,7 +320,7 @@ func runHist(c HCase, r *runlog.R) error {
 
 var subHist = runlog.Register(&runlog.Sub[HCase]{
 	Name:    "reused-arguments",
-	Rule:    "histories of 2-6 calls (NewFrom; NewFrom+Merge; Unpack into a *Config target) over two dotted-key inputs whose object-valued entries may be embedded *Config values, with option lists drawn (subset and order) from a pool of Option values (global and per-field merge policies with plain, dotted and wildcard names, VarExp, a resolver, an Env config); a third of the steps repeat an earlier call exactly. Every step runs with inputs and Option values built once and shared by all steps, and again with freshly built equal arguments: both outcomes (canonical data or error kind) must be equal, repeated calls must repeat their outcome, and the embedded *Config values must still hold their own data afterwards. Non-trivial: at least two steps and the pool holds a per-field option or the input an embedded *Config. Distinct: hash of the case.",
+	Rule:    "histories of 2-6 calls (NewFrom; NewFrom+Merge; Unpack into a *Config target; Unpack of a long-lived configuration into long-lived targets that capture its sections in *Config fields under default/append/prepend tags, after which the configuration must unpack like a fresh one) over two dotted-key inputs whose object-valued entries may be embedded *Config values, with option lists drawn (subset and order) from a pool of Option values (global and per-field merge policies with plain, dotted and wildcard names, VarExp, a resolver, an Env config); a third of the steps repeat an earlier call exactly. Every step runs with inputs and Option values built once and shared by all steps, and again with freshly built equal arguments: both outcomes (canonical data or error kind) must be equal, repeated calls must repeat their outcome, and the embedded *Config values must still hold their own data afterwards. Non-trivial: at least two steps and the pool holds a per-field option or the input an embedded *Config. Distinct: hash of the case.",
 	Gen:     genHist,
 	Run:     runHist,
 	Journal: true,
